@@ -42,6 +42,7 @@ class Glue:
             ex.hooks['(*' + FP + '.decimal).floatBits'] = self.h_floatbits
         ex.hooks[FP + '.vAssertGlueValue'] = self.h_assert_value
         ex.hooks[FP + '.vAssertScanValue'] = self.h_assert_scan
+        ex.hooks[FP + '.vAssertShift'] = self.h_assert_shift
         ex.hooks[FP + '.vGlueOverflows'] = self.h_overflows
         ex.glue = self
 
@@ -259,6 +260,73 @@ class Glue:
         if badst.pc is not None:
             ex.finish(badst)
             rec[1] += 1
+        return None
+
+    def h_assert_shift(self, ex, st, fr, ins, args):
+        """tier 5a: after = before * 2^(+-k) exactly, normalised, not truncated"""
+        from .terms import sgn
+        before, after, k, left, idv = args
+        aid = bytes(idv[1]).decode()
+        rec = self.ses.asserts.setdefault(aid, [0, 0])
+        lia = self.lia
+
+        def dec(ptr):
+            v = ex.load(st, ptr)
+            d, nd, dp, neg, trunc = v[1]
+            if nd.__class__ is Term or dp.__class__ is Term:
+                raise NotImplementedError('symbolic digit count')
+            nd, dp = sgn(nd, 64), sgn(dp, 64)
+            side = []
+            num = z3.IntVal(0)
+            digs = []
+            for i in range(nd):
+                c = d[1][i]
+                if c.__class__ is Term:
+                    e, lo, hi, sd = lia.conv(c)
+                    side += list(sd)
+                else:
+                    e = z3.IntVal(c)
+                digs.append(e)
+                num = num * 10 + (e - 48)
+            return num, nd, dp, trunc, digs, side
+        bnum, bnd, bdp, _, _, bside = dec(before)
+        anum, and_, adp, atrunc, adigs, aside = dec(after)
+        k = sgn(k, 64)
+        # value = num * 10^(dp-nd)
+        eb, ea = bdp - bnd, adp - and_
+        lhs = anum * (10 ** max(ea, 0)) * (10 ** max(-eb, 0))
+        rhs = bnum * (10 ** max(eb, 0)) * (10 ** max(-ea, 0))
+        if left:
+            rhs = rhs * (2 ** k)
+        else:
+            lhs = lhs * (2 ** k)
+        bad = [lhs != rhs]
+        for e in adigs:
+            bad.append(z3.Or(e < 48, e > 57))
+        if adigs:
+            bad.append(adigs[-1] == 48)
+        if atrunc.__class__ is Term:
+            tz, _, _, ts = lia.conv(atrunc)
+            aside += list(ts)
+            bad.append(tz)
+        elif atrunc:
+            bad.append(z3.BoolVal(True))
+        r = lia.check(st.pc, st.extras, (), raw=list(st.raw) + bside + aside + [z3.Or(*bad)])
+        self.ses.obligations = getattr(self.ses, 'obligations', 0) + 1
+        if r == 'unsat':
+            rec[0] += 1
+            return None
+        badst = st.fork()
+        badst.status = 'assertfail'
+        badst.result = (aid, ins['pos'])
+        if r == 'sat':
+            assign = lia.model_assign()
+            for t in st.nondet:
+                badst.extras = badst.extras + (ex.store.mk('eq', 0, t, ex.store.evaluate(t, assign)),)
+        else:
+            badst.inexact = True
+        ex.finish(badst)
+        rec[1] += 1
         return None
 
     # -- the obligation --------------------------------------------------------
